@@ -207,7 +207,7 @@ def _run_jobs(ctx, fn, jobs, nproc, prop_id, part_name):
     """one process per shard, at most nproc at a time.  The per-case alarm cannot interrupt a call that stays inside C code (a
     regular expression that backtracks without end): a shard whose current case is three limits (+30 s) old is killed by the
     parent and counted as a case without a result; what the shard had collected is lost with it"""
-    results, pending, active = [], list(enumerate(jobs)), {}
+    results, pending, active = {}, list(enumerate(jobs)), {}
     while pending or active:
         while pending and len(active) < nproc:
             idx, job = pending.pop(0)
@@ -221,17 +221,17 @@ def _run_jobs(ctx, fn, jobs, nproc, prop_id, part_name):
             p, rd, hb = active[idx]
             if rd.poll(0.02):
                 try:
-                    results.append(rd.recv())
+                    results[idx] = rd.recv()
                 except EOFError:
                     col = Collected()
                     col.harness_errors.append(f'{prop_id}/{part_name} shard {idx}: worker ended without a result')
-                    results.append(col)
+                    results[idx] = col
                 p.join()
                 del active[idx]
             elif not p.is_alive():
                 col = Collected()
                 col.harness_errors.append(f'{prop_id}/{part_name} shard {idx}: worker died (exit code {p.exitcode})')
-                results.append(col)
+                results[idx] = col
                 del active[idx]
             elif time.time() - hb[0] > 3 * hb[1] + 30:
                 p.kill()
@@ -242,10 +242,10 @@ def _run_jobs(ctx, fn, jobs, nproc, prop_id, part_name):
                        f'{prop_id}/{part_name}{TIMEOUT_MARK}call-that-cannot-be-interrupted', limit_s=hb[1], shard=idx,
                        note='the shard was killed by the runner; the case is not known to the parent')
                 col.add(None, r)
-                results.append(col)
+                results[idx] = col
                 del active[idx]
         time.sleep(0.05)
-    return results
+    return [results[i] for i in sorted(results)]   # in shard order: the merged result does not depend on which shard finished first
 
 
 def _on_alarm(signum, frame):
